@@ -3,7 +3,7 @@ package log
 import "context"
 
 //verif:witness H_C16_lifecycle end
-//verif:bound C16 quick every operation sequence of length 1..3 over {Refresh(valid sync cfg), Refresh(valid async cfg), Refresh(invalid, early failure), Refresh(invalid, late failure after rebinding), Destroy, log via tag, write via named handle, register tag, obtain handle} on the real package globals, real Refresh/Destroy through the reflect shim; worker scheduled at blocking points
+//verif:bound C16 quick every operation sequence of length 1..3 over {Refresh(valid sync cfg), Refresh(valid async cfg), Refresh(invalid, early failure), Refresh(invalid, late failure after rebinding), Destroy, log via tag, write via named handle, register tag, obtain handle, log via a tag served by the configured root logger} on the real package globals, real Refresh/Destroy through the reflect shim; worker scheduled at blocking points
 //verif:bound C16 thorough sequences of length 1..5
 //verif:assume C16 after a Refresh that failed late (configured flag set, nothing registered for Destroy) the harness does not judge whether registration is refused; it does judge that logging neither panics nor blocks and that Destroy returns the system to the unconfigured state
 
@@ -15,16 +15,23 @@ type vLife struct {
 
 func vCfg(async bool, badProperty bool) map[string]string {
 	m := map[string]string{
+		// a configured root logger of the same kind serves the tags nobody lists
+		"appender.a0.type":            "Rec",
+		"logger.root.appenderRef.ref": "a0",
 		"appender.a1.type":            "Rec",
 		"logger.l1.tags":              "_c16_tag",
 		"logger.l1.appenderRef.ref":   "a1",
 		"logger.l1.appenderRef.level": "",
 	}
 	if async {
+		m["logger.root.type"] = "AsyncLogger"
+		m["logger.root.bufferSize"] = "100"
+		m["logger.root.bufferFullPolicy"] = "Block"
 		m["logger.l1.type"] = "AsyncLogger"
 		m["logger.l1.bufferSize"] = "100"
 		m["logger.l1.bufferFullPolicy"] = "Block"
 	} else {
+		m["logger.root.type"] = "Logger"
 		m["logger.l1.type"] = "Logger"
 	}
 	if badProperty {
@@ -70,7 +77,27 @@ func H_C16_lifecycle() {
 	var st vLife
 	n := 1 + vChoose("len", maxLen)
 	for i := 0; i < n; i++ {
-		switch vChoose("op", 9) {
+		switch vChoose("op", 10) {
+		case 9: // log via a tag nobody lists: served by the configured root logger, else the built-in one
+			var root *vRecAppender
+			before := 0
+			if st.live {
+				for _, a := range global.appenders {
+					if x := a.(*vRecAppender); x.Name == "a0" {
+						root = x
+					}
+				}
+				before = root.appends
+			}
+			nsink := len(sink.writes)
+			p := vNoPanic(func() { Warn(context.Background(), TagAppDef, Msg("r")) })
+			vAssert(!p, "logging-via-root-routed-tag-never-panics")
+			if !st.live && !st.failed {
+				vAssert(len(sink.writes) == nsink+1, "unconfigured-logging-goes-to-the-built-in-console-logger")
+			}
+			if st.live && !st.async {
+				vAssert(root.appends == before+1 && len(sink.writes) == nsink, "configured-root-serves-unlisted-tags")
+			}
 		case 0, 1: // Refresh(valid)
 			async := false
 			if i > 0 || true {
@@ -102,7 +129,11 @@ func H_C16_lifecycle() {
 			var before int
 			var rec *vRecAppender
 			if st.live {
-				rec = global.appenders[0].(*vRecAppender)
+				for _, a := range global.appenders {
+					if x := a.(*vRecAppender); x.Name == "a1" {
+						rec = x
+					}
+				}
 				before = rec.appends
 			}
 			nsink := len(sink.writes)
